@@ -99,6 +99,16 @@ pub fn build_optimization_plan<'arena>(
         if stmt_effective_class(warning.stmt_id, facts, summaries) != ExprClass::PureNoTrap {
             continue;
         }
+        // Liveness treats a callee's capture write as a definite overwrite, although the callee
+        // may only write on some of its paths. That is fine for a warning, but pruning needs
+        // certainty, so an assignment to a local that some function writes through a capture
+        // is kept.
+        if summaries.iter().any(|summary| {
+            summary.direct_capture_writes.contains(&warning.local)
+                || summary.transitive_capture_writes.contains(&warning.local)
+        }) {
+            continue;
+        }
         let stmt = facts.stmt_effect(warning.stmt_id).stmt;
         if matches!(stmt, Stmt::Assign { .. })
             && !declaration_is_runtime_removable(
